@@ -238,6 +238,7 @@ package snaps
 //@ func getUnifiedDiff(a, b) returns (r, inserted, deleted)
 //@   mode lines
 //@   option paths-in-loops
+//@   isolate outside_same
 //@   requires dmp != nil
 //@   assigns alloc, nDelPrinted, nInsPrinted, delText, insText
 //@   ensures [nonempty] a != b ==> r != ""
